@@ -119,6 +119,38 @@ func single(c *mon.Case, g1, g2 *mon.Guard, key, pt []byte, hi bool) {
 		c.Eq("Decrypt", d, wantD)
 	}
 	c.Event("blocks", 5)
+	// Windows longer than one block: Block.Encrypt/Decrypt work on the FIRST block of each argument. Two windows into
+	// one array that start at different block offsets hand over disjoint first blocks although the slices overlap;
+	// only dst[:16] may change.
+	arr := g1.Side(80, hi)
+	for _, w := range [][2]int{{16, 0}, {0, 16}, {32, 0}, {0, 48}} {
+		for i := range arr {
+			arr[i] = byte(0x30 + i)
+		}
+		copy(arr[w[1]:], pt)
+		before := append([]byte{}, arr...)
+		d, sr := arr[w[0]:], arr[w[1]:]
+		what := fmt.Sprintf("Encrypt(buf[%d:], buf[%d:]) on windows of %d and %d bytes into one array", w[0], w[1], len(d), len(sr))
+		if c.Call(what, func() { blk.Encrypt(d, sr) }) {
+			c.Eq(what, d[:16], want)
+			copy(before[w[0]:], want)
+			if !bytes.Equal(arr, before) {
+				c.Fail("mismatch", "%s changed bytes outside the first block of dst: got %x want %x", what, arr, before)
+			}
+		}
+		copy(arr[w[1]:], want)
+		before = append(before[:0], arr...)
+		what = fmt.Sprintf("Decrypt(buf[%d:], buf[%d:]) on windows of %d and %d bytes into one array", w[0], w[1], len(d), len(sr))
+		if c.Call(what, func() { blk.Decrypt(d, sr) }) {
+			c.Eq(what, d[:16], pt)
+			copy(before[w[0]:], pt)
+			if !bytes.Equal(arr, before) {
+				c.Fail("mismatch", "%s changed bytes outside the first block of dst: got %x want %x", what, arr, before)
+			}
+		}
+		c.Event("long_window_calls", 2)
+	}
+	c.CheckGuards("long windows", g1)
 }
 
 func blockWL(x *mon.Ctx) {
@@ -228,6 +260,41 @@ func batchWL(x *mon.Ctx) {
 				}
 				run("ECB encrypt", gmcipher.NewECBEncrypter(blk), pt, want)
 				run("ECB decrypt", gmcipher.NewECBDecrypter(blk), want, pt)
+				// dst longer than src (the BlockMode and batch contracts ask for len(dst) >= len(src)): only dst[:len(src)]
+				// is specified; src sits against a guard page, so a kernel that takes its length from dst faults
+				if alias == "disjoint" {
+					longer := func(what string, f func(dst, src []byte), in, exp []byte, extra int) {
+						src := g1.Put(in, hi)
+						dst := g2.Side(len(in)+extra, hi)
+						for i := range dst {
+							dst[i] = 0x5a
+						}
+						if c.Call(what, func() { f(dst, src) }) {
+							cmpBlocks(what, dst[:len(in)], exp)
+							for _, v := range dst[len(in):] {
+								if v != 0x5a {
+									c.Event("observation/dst_beyond_len_src_touched", 1)
+									break
+								}
+							}
+							if !bytes.Equal(src, in) {
+								c.Fail("mismatch", "%s modified src", what)
+							}
+						}
+						c.CheckGuards(what, g1, g2)
+						c.Event("dst_longer_calls", 1)
+					}
+					for _, extra := range []int{16, 16 * n, 16 * (1 + rep%7)} {
+						tag := fmt.Sprintf(" with dst %d bytes longer than src", extra)
+						longer("ECB encrypt"+tag, gmcipher.NewECBEncrypter(blk).CryptBlocks, pt, want, extra)
+						longer("ECB decrypt"+tag, gmcipher.NewECBDecrypter(blk).CryptBlocks, want, pt, extra)
+						// (one batch only: whether a second batch is processed at all is left open, see below)
+						if cb, ok := blk.(concurrent); ok && cb.Concurrency() == n {
+							longer("EncryptBlocks"+tag, cb.EncryptBlocks, pt, want, extra)
+							longer("DecryptBlocks"+tag, cb.DecryptBlocks, want, pt, extra)
+						}
+					}
+				}
 				// misaligned buffers: Hi/Lo starts are 16-byte aligned for whole blocks, which would hide an aligned
 				// vector load/store on caller memory (a fault that no output comparison sees)
 				for _, off := range [][2]int{{1, 9}, {8, 24}, {16, 16}, {24, 8}, {31, 1}, {16, 48}}[rep%6 : rep%6+1] {
